@@ -11,6 +11,14 @@ package main
 //	   => w=<tokens>;r=<tokens>
 //	rd b=<burst> plen=<len(p)> avail=<k>       real limit.Reader over a bytes.Reader holding k bytes
 //	   => n=<n>;err=<0|eof>
+//	wlim b=<burst> r=<rate | 0> w=<len,len,…> room=<bytes> seed=
+//	   real limit.Writer over a REAL FINITE rate.Limiter (burst b; r bytes/s really waited for, or r=0: 1 token/s,
+//	   refilled by the sink after every write so that the tokens each WaitN took are observed) and a sink that
+//	   fails after `room` bytes; successive Write calls of the given sizes (0 … 8 x burst)
+//	   => c=<n>:<0|wait|sink|other>:<sink write sizes a/b/…>:<tokens per WaitN a/b/… | ->|…;cat=<0|1>
+//	rlim b=<burst> r=<rate | 0> plen=<len(p)> per=<segment> n=<stream bytes> seed=
+//	   real limit.Reader over a real finite limiter, buffers larger and smaller than the burst, drained to EOF
+//	   => n=<a,b,…>;req=<a,b,… | ->;end=<eof|wait|other|max>;cat=<0|1>
 //	bucket r=<tokens/µs> b=<burst> q=<t:n,…>   real x/time/rate ReserveN(base+t µs, n)
 //	   => g=<grant µs>,…
 //	srv enc= comp= lim= n= ch= seed= mode=     real server/proxy TCP proxy (proxy.NewProxy + Run); the harness is
@@ -66,6 +74,16 @@ func init() {
 
 const stkToken = "c01-token"
 
+const stkSourceReqLen = 17
+
+func stkSourceReq(n int, seed int64) []byte {
+	return []byte(fmt.Sprintf("G%08x%08x", n, uint32(seed)))
+}
+
+func stkPauseReq(after, ms int) []byte {
+	return []byte(fmt.Sprintf("Z%08x%08x", after, ms))
+}
+
 // ---------------------------------------------------------------- generator
 
 func stkGen(rng *rand.Rand, n int, emit func(string)) {
@@ -103,11 +121,15 @@ func stkGen(rng *rand.Rand, n int, emit func(string)) {
 		emit(fmt.Sprintf("disp n=%d to=x", np))
 	}
 	emit("wrl b=16384 n=1048576")
+	// frp's own shapes: Join's 16 KiB copy buffer against an 8KB / 16KB / 4KB limit, waited for at 50 MB/s
+	emit("wlim b=8192 r=50000000 w=16384,16384,5000 room=1000000 seed=1")
+	emit("wlim b=16384 r=0 w=16392,16384 room=1000000 seed=2")
+	emit("rlim b=4096 r=0 plen=16384 per=16384 n=40000 seed=3")
 	emit("wrl b=65536 n=65536")
 	emit("wrl b=65536 n=65537")
 	for i := 0; i < n; i++ {
 		switch r := rng.Intn(100); {
-		case r < 40:
+		case r < 36:
 			b := 1 + rng.Intn(9)
 			if rng.Intn(4) == 0 {
 				b = 1 + rng.Intn(40)
@@ -122,15 +144,19 @@ func stkGen(rng *rand.Rand, n int, emit func(string)) {
 			p := make([]byte, ln)
 			rng.Read(p)
 			emit(fmt.Sprintf("wr b=%d p=%s", b, hx(string(p))))
-		case r < 50:
+		case r < 46:
 			b := 1 + rng.Intn(5000)
 			emit(fmt.Sprintf("wrl b=%d n=%d", b, rng.Intn(20*b+2)))
-		case r < 65:
+		case r < 60:
 			b := 1 + rng.Intn(40)
 			emit(fmt.Sprintf("rd b=%d plen=%d avail=%d", b, 1+rng.Intn(60), rng.Intn(60)))
-		case r < 72:
+		case r < 70:
 			b := 1 + rng.Intn(1000)
 			emit(fmt.Sprintf("wtok b=%d n=%d", b, rng.Intn(b+1)))
+		case r < 78:
+			emit(stkGenWlim(rng))
+		case r < 84:
+			emit(stkGenRlim(rng))
 		default:
 			r := pick(rng, []int{1, 1, 2, 4})
 			b := r * (1 + rng.Intn(20))
@@ -145,6 +171,101 @@ func stkGen(rng *rand.Rand, n int, emit func(string)) {
 			emit(fmt.Sprintf("bucket r=%d b=%d q=%s", r, b, strings.Join(q, ",")))
 		}
 	}
+}
+
+
+// a burst from 1 byte to several KiB, small ones and powers of two (±1) over-represented
+func stkGenBurst(rng *rand.Rand) int {
+	switch rng.Intn(5) {
+	case 0:
+		return 1 + rng.Intn(4)
+	case 1:
+		return 1 + rng.Intn(64)
+	case 2:
+		return (1 << uint(rng.Intn(14))) + rng.Intn(3) - 1 + stkBit(rng.Intn(8) == 0)
+	case 3:
+		return 1 + rng.Intn(1024)
+	}
+	return 1 + rng.Intn(8192)
+}
+
+// a size between 0 and 8 bursts: anything, exact multiples of the burst and their neighbours
+func stkGenLen(rng *rand.Rand, b int) int {
+	switch rng.Intn(4) {
+	case 0:
+		n := b*rng.Intn(9) + rng.Intn(3) - 1
+		if n < 0 {
+			n = 0
+		}
+		return n
+	case 1:
+		return rng.Intn(b + 2)
+	}
+	return rng.Intn(8*b + 1)
+}
+
+// the rate really waited for: the whole op finishes within ~10 ms; 0 = token-observing mode
+func stkGenRate(rng *rand.Rand, total int) int {
+	switch rng.Intn(3) {
+	case 0:
+		return 100*total + 1000000
+	case 1:
+		return 1000000000
+	}
+	return 0
+}
+
+func stkGenWlim(rng *rand.Rand) string {
+	b := stkGenBurst(rng)
+	if b < 1 {
+		b = 1
+	}
+	k := 1 + rng.Intn(4)
+	if rng.Intn(3) == 0 {
+		k = 1
+	}
+	var ws []string
+	total := 0
+	for i := 0; i < k; i++ {
+		n := stkGenLen(rng, b)
+		total += n
+		ws = append(ws, strconv.Itoa(n))
+	}
+	room := total + rng.Intn(10)
+	if rng.Intn(4) == 0 { // the sink fails somewhere inside the run
+		room = rng.Intn(total + 1)
+	}
+	return fmt.Sprintf("wlim b=%d r=%d w=%s room=%d seed=%d", b, stkGenRate(rng, total), strings.Join(ws, ","), room, rng.Intn(100000))
+}
+
+func stkGenRlim(rng *rand.Rand) string {
+	b := stkGenBurst(rng)
+	if b < 1 {
+		b = 1
+	}
+	plen := 1 + rng.Intn(8*b)
+	switch rng.Intn(4) {
+	case 0:
+		plen = 1 + rng.Intn(b)
+	case 1:
+		plen = pick(rng, []int{b, b + 1, 2 * b, 16384, 32768})
+	}
+	per := 1 + rng.Intn(2*plen)
+	if rng.Intn(3) == 0 {
+		per = 1 + rng.Intn(8*b+plen)
+	}
+	step := per
+	if plen < step {
+		step = plen
+	}
+	if b < step {
+		step = b
+	}
+	n := rng.Intn(step*24 + 1) // at most ~24 reads
+	if rng.Intn(3) == 0 {
+		n = step * rng.Intn(12)
+	}
+	return fmt.Sprintf("rlim b=%d r=%d plen=%d per=%d n=%d seed=%d", b, stkGenRate(rng, n), plen, per, n, rng.Intn(100000))
 }
 
 // ---------------------------------------------------------------- helpers
@@ -380,12 +501,21 @@ func (b *stkBackend) serve(bc *stkBConn) {
 		return
 	}
 	buf := make([]byte, 32*1024)
-	sink, first := false, true
+	sink, first, source := false, true, false
+	pauseAfter, pauseMs := -1, 0
 	for {
 		n, err := rd.Read(buf)
 		if n > 0 {
 			if first {
-				sink = buf[0] == 'S'
+				sink = buf[0] == 'S' || buf[0] == 'G' || buf[0] == 'Z'
+				source = buf[0] == 'G'
+				if buf[0] == 'Z' && n >= stkSourceReqLen {
+					// 'Z' <8 hex digits: after> <8 hex digits: ms>: a sink that stops reading for a while once it has
+					// received `after` bytes (a slow consumer), then reads on to the end
+					a, _ := strconv.ParseUint(string(buf[1:9]), 16, 32)
+					m, _ := strconv.ParseUint(string(buf[9:17]), 16, 32)
+					pauseAfter, pauseMs = int(a), int(m)
+				}
 				first = false
 			}
 			b.mu.Lock()
@@ -395,7 +525,28 @@ func (b *stkBackend) serve(bc *stkBConn) {
 			bc.recv.Write(buf[:n])
 			bc.at = append(bc.at, time.Since(bc.t0).Milliseconds())
 			bc.cum = append(bc.cum, bc.recv.Len())
+			req := append([]byte(nil), bc.recv.Bytes()...)
 			b.mu.Unlock()
+			if source && len(req) >= stkSourceReqLen {
+				// 'G' <8 hex digits: length> <8 hex digits: seed>: the backend is the one that writes — the whole
+				// payload in ONE Write — and then leaves while the user is only reading
+				ln, _ := strconv.ParseUint(string(req[1:9]), 16, 32)
+				sd, _ := strconv.ParseUint(string(req[9:17]), 16, 32)
+				_, _ = bc.c.Write(stkPayload(int(ln), "rand", int64(sd), false))
+				// finished writing: FIN now; gone for good once frpc has hung up (it does when it has forwarded
+				// everything into the tunnel and closed the tunnel side) — bc.eof then says "the writing side is done"
+				if tc, ok := bc.c.(*net.TCPConn); ok {
+					_ = tc.CloseWrite()
+				}
+				_ = bc.c.SetReadDeadline(time.Now().Add(20 * time.Second))
+				_, _ = io.Copy(io.Discard, rd)
+				close(bc.eof)
+				return
+			}
+			if pauseAfter >= 0 && len(req) >= pauseAfter {
+				pauseAfter = -1
+				time.Sleep(time.Duration(pauseMs) * time.Millisecond)
+			}
 			if !sink {
 				if _, werr := bc.c.Write(buf[:n]); werr != nil {
 					close(bc.eof)
@@ -516,6 +667,185 @@ func stkRd(kv map[string]string) string {
 		e = "other"
 	}
 	return fmt.Sprintf("n=%d;err=%s", n, e)
+}
+
+// ---- the limiter wrappers over a real finite rate.Limiter
+
+var stkErrSinkFull = fmt.Errorf("sink full")
+
+// a limiter with burst b: r > 0 => r tokens/s, really waited for. r == 0 => 1 token/s and refill() makes the bucket
+// full again (the bucket is advanced to a time ten years ahead; later requests "before" that time see it full), so
+// that used() = burst - tokens is exactly what the WaitN calls since the last refill took, and nothing ever waits.
+func stkFiniteLimiter(b, r int) (l *rate.Limiter, used func() int, refill func()) {
+	if r > 0 {
+		return rate.NewLimiter(rate.Limit(float64(r)), b), nil, func() {}
+	}
+	l = rate.NewLimiter(rate.Limit(1), b)
+	used = func() int { return int(float64(b) - l.Tokens() + 0.5) }
+	refill = func() { l.SetLimitAt(time.Now().Add(10*365*24*time.Hour), rate.Limit(1)) }
+	return
+}
+
+// a contract-abiding io.Writer that accepts `room` more bytes and then fails
+type stkRoomSink struct {
+	room   int
+	got    []byte
+	sizes  []int // len(p) of every Write it saw during the current call
+	tokens []int // tokens taken from the limiter since the previous sink write
+	used   func() int
+	refill func()
+}
+
+func (s *stkRoomSink) Write(p []byte) (int, error) {
+	s.sizes = append(s.sizes, len(p))
+	if s.used != nil {
+		s.tokens = append(s.tokens, s.used())
+		s.refill()
+	}
+	if len(p) <= s.room {
+		s.got = append(s.got, p...)
+		s.room -= len(p)
+		return len(p), nil
+	}
+	k := s.room
+	s.got = append(s.got, p[:k]...)
+	s.room = 0
+	return k, stkErrSinkFull
+}
+
+func stkSlash(xs []int) string {
+	var out []string
+	for _, x := range xs {
+		out = append(out, strconv.Itoa(x))
+	}
+	return strings.Join(out, "/")
+}
+
+// run f, but never wait for a limiter that will not grant within the op's time (a WaitN the model does not have)
+func stkGuard(d time.Duration, f func() string) string {
+	ch := make(chan string, 1)
+	go func() {
+		defer func() {
+			if r := recover(); r != nil {
+				ch <- fmt.Sprint("PANIC:", r)
+			}
+		}()
+		ch <- f()
+	}()
+	select {
+	case s := <-ch:
+		return s
+	case <-time.After(d):
+		return "hang"
+	}
+}
+
+func stkWlim(kv map[string]string) string {
+	b, r, room, seed := atoi(kv["b"]), atoi(kv["r"]), atoi(kv["room"]), int64(atoi(kv["seed"]))
+	if b < 1 {
+		return "badburst"
+	}
+	return stkGuard(3*time.Second, func() string {
+		l, used, refill := stkFiniteLimiter(b, r)
+		sink := &stkRoomSink{room: room, used: used, refill: refill}
+		w := limit.NewWriter(sink, l)
+		var all []byte
+		var calls []string
+		for i, ls := range strings.Split(kv["w"], ",") {
+			p := stkPayload(atoi(ls), "rand", seed+int64(i), false)
+			all = append(all, p...)
+			sink.sizes, sink.tokens = nil, nil
+			n, err := w.Write(p)
+			e := "0"
+			switch {
+			case err == nil:
+			case err == stkErrSinkFull:
+				e = "sink"
+			case strings.Contains(err.Error(), "exceeds limiter's burst"):
+				e = "wait"
+			default:
+				e = "other"
+			}
+			tk := "-"
+			if used != nil {
+				if t := used(); t != 0 { // tokens taken after the last sink write of this call
+					sink.tokens = append(sink.tokens, t)
+				}
+				refill()
+				tk = stkSlash(sink.tokens)
+			}
+			calls = append(calls, fmt.Sprintf("%d:%s:%s:%s", n, e, stkSlash(sink.sizes), tk))
+		}
+		cat := len(sink.got) <= len(all) && bytes.Equal(sink.got, all[:len(sink.got)])
+		return fmt.Sprintf("c=%s;cat=%d", strings.Join(calls, "|"), stkBit(cat))
+	})
+}
+
+// a stream that hands out at most `per` bytes per Read
+type stkSegReader struct {
+	data []byte
+	per  int
+}
+
+func (s *stkSegReader) Read(p []byte) (int, error) {
+	if len(s.data) == 0 {
+		return 0, io.EOF
+	}
+	k := len(p)
+	if s.per < k {
+		k = s.per
+	}
+	k = copy(p[:k], s.data)
+	s.data = s.data[k:]
+	return k, nil
+}
+
+func stkRlim(kv map[string]string) string {
+	b, r, plen, per, n, seed := atoi(kv["b"]), atoi(kv["r"]), atoi(kv["plen"]), atoi(kv["per"]), atoi(kv["n"]), int64(atoi(kv["seed"]))
+	if b < 1 || plen < 1 || per < 1 {
+		return "badarg"
+	}
+	return stkGuard(3*time.Second, func() string {
+		l, used, refill := stkFiniteLimiter(b, r)
+		src := stkPayload(n, "rand", seed, false)
+		rd := limit.NewReader(&stkSegReader{data: src, per: per}, l)
+		buf := make([]byte, plen)
+		var got []byte
+		var ns, tokens []string
+		end := "max"
+		for i := 0; i < n+2; i++ {
+			k, err := rd.Read(buf)
+			got = append(got, buf[:k]...)
+			t := 0
+			if used != nil {
+				t = used()
+				refill()
+			}
+			if err == nil {
+				ns = append(ns, strconv.Itoa(k))
+				tokens = append(tokens, strconv.Itoa(t))
+				continue
+			}
+			if k != 0 || t != 0 { // bytes / tokens that came with the error
+				ns = append(ns, strconv.Itoa(k))
+				tokens = append(tokens, strconv.Itoa(t))
+			}
+			switch {
+			case err == io.EOF:
+				end = "eof"
+			case strings.Contains(err.Error(), "exceeds limiter's burst"):
+				end = "wait"
+			default:
+				end = "other"
+			}
+			break
+		}
+		req := "-"
+		if used != nil {
+			req = strings.Join(tokens, ",")
+		}
+		return fmt.Sprintf("n=%s;req=%s;end=%s;cat=%d", strings.Join(ns, ","), req, end, stkBit(bytes.Equal(got, src)))
+	})
 }
 
 func stkBucket(kv map[string]string) string {
@@ -1066,6 +1396,10 @@ func stkExec(tok []string) string {
 		return stkWtok(kv)
 	case "rd":
 		return stkRd(kv)
+	case "wlim":
+		return stkWlim(kv)
+	case "rlim":
+		return stkRlim(kv)
 	case "bucket":
 		return stkBucket(kv)
 	case "srv":
